@@ -35,6 +35,8 @@ def grid(maxs, maxr, maxw):
 
 def cases(tier, rng):
     yield J('rr_styled', 0, 0, 4, 20, *([1, 1] * 4), 5, 7, 3, 0, -5, -5, 30, 30)
+    yield 'rr_styled 0 0 4 29 0 0 0 0 9 51 0 0 5 7 1 0 -5 -5 40 40'
+    yield 'rr_styled -13 3 57 42 57 2 0 0 48 25 8 2 5 0 1 1 -20 -5 90 60'
     for g in grid(8, 4, 5) if tier != 'quick' else grid(6, 2, 3):
         yield J('rr_styled', *g, -20, -20, 60, 60)
     n = 8000 if tier == 'quick' else 200000
@@ -45,6 +47,9 @@ def cases(tier, rng):
 
 def search(tier, rng):
     yield J('p_rr_styled', 0, 0, 4, 20, *([1, 1] * 4), 5, 7, 3, 0)
+    # FINDINGS-C06.md (class K06_rrect_fill_outside_stroke): fill_area() point outside stroke_area()
+    yield 'p_rr_styled 0 0 4 29 0 0 0 0 9 51 0 0 5 7 1 0'
+    yield 'p_rr_styled -13 3 57 42 57 2 0 0 48 25 8 2 5 0 1 1'
     for g in grid(8, 4, 5) if tier != 'quick' else grid(6, 3, 4):
         yield J('p_rr_styled', *g)
     n = 12000 if tier == 'quick' else 300000
